@@ -53,27 +53,25 @@ Proof.
 Qed.
 Print Assumptions C12_xml_doc_std_siblings_refuted.
 
-(* the table hypothesis "a prefix stands for one namespace" cannot be dropped: two modules with the same prefix
-   (legal YANG: prefixes need not be unique across modules) that both contribute metadata to one node make
-   xml_print_meta() declare the prefix twice in one start tag - a duplicate attribute, not well-formed. FINDING
-   xml-meta-prefix-clash (libyang prints  <l xmlns="urn:a" xmlns:p="urn:a" p:x="1" xmlns:p="urn:b" p:y="2">v</l>  and
-   cannot read it back). Everything else about the witness is in order (names_okb, the data). *)
-Theorem C12_xml_doc_prefix_clash_refuted :
-  exists sch t f, names_okb sch t = true /\ canonb sch None f = true /\ forallb (docb sch t std_valb) f = true /\
-                  std_xml_content (xml_print_all sch t f) = None /\
-                  xml_print_all sch t f =
-                    [60; 108; 32; 120; 109; 108; 110; 115; 61; 34; 117; 114; 110; 58; 97; 34;
-                     32; 120; 109; 108; 110; 115; 58; 112; 61; 34; 117; 114; 110; 58; 97; 34; 32; 112; 58; 120; 61; 34; 49; 34;
-                     32; 120; 109; 108; 110; 115; 58; 112; 61; 34; 117; 114; 110; 58; 98; 34; 32; 112; 58; 121; 61; 34; 50; 34;
-                     62; 118; 60; 47; 108; 62].
-Proof.
-  exists [(0, mk_sinfo KLeaf None [] false true [] [] false 0 None OBytes)],
-         (mk_doctabs [(0, (0, [108]))]
-                     [(0, mk_modinfo [109; 97] [112] [117; 114; 110; 58; 97]); (1, mk_modinfo [109; 98] [112] [117; 114; 110; 58; 98])]),
-         [DN 0 [118] false [([109; 97; 58; 120], [49]); ([109; 98; 58; 121], [50])] []].
-  vm_compute. repeat split.
-Qed.
-Print Assumptions C12_xml_doc_prefix_clash_refuted.
+(* two modules with the same prefix (legal YANG: prefixes need not be unique across modules) that both contribute
+   metadata to one node: [tabs_okb] does not exclude it (it did before 91f0178, when xml_print_meta() declared the prefix
+   twice in one start tag - former finding xml-meta-prefix-clash, former theorem C12_xml_doc_prefix_clash_refuted). The
+   second module gets a numbered prefix; regression case on the former witness:
+   <l xmlns="urn:a" xmlns:p="urn:a" p:x="1" xmlns:p1="urn:b" p1:y="2">v</l> *)
+Example C12_xml_doc_prefix_clash_regression :
+  let sch := [(0, mk_sinfo KLeaf None [] false true [] [] false 0 None OBytes)] in
+  let t := mk_doctabs [(0, (0, [108]))]
+                      [(0, mk_modinfo [109; 97] [112] [117; 114; 110; 58; 97]); (1, mk_modinfo [109; 98] [112] [117; 114; 110; 58; 98])] in
+  let f := [DN 0 [118] false [([109; 97; 58; 120], [49]); ([109; 98; 58; 121], [50])] []] in
+  tabs_okb sch t = true /\ canonb sch None f = true /\ forallb (docb sch t std_valb) f = true /\
+  std_xml_content (xml_print_all sch t f) = Some ([], to_generic t f) /\
+  xml_parse sch t (xml_print_all sch t f) = Some f /\
+  xml_print_all sch t f =
+    [60; 108; 32; 120; 109; 108; 110; 115; 61; 34; 117; 114; 110; 58; 97; 34;
+     32; 120; 109; 108; 110; 115; 58; 112; 61; 34; 117; 114; 110; 58; 97; 34; 32; 112; 58; 120; 61; 34; 49; 34;
+     32; 120; 109; 108; 110; 115; 58; 112; 49; 61; 34; 117; 114; 110; 58; 98; 34; 32; 112; 49; 58; 121; 61; 34; 50; 34;
+     62; 118; 60; 47; 108; 62].
+Proof. vm_compute. repeat split. Qed.
 
 (* the data hypothesis "distinct metadata keys on a node" cannot be dropped either: the same annotation twice on one
    node (the JSON parser accepts a repeated member, lyd_new_meta does not check) is printed as a repeated attribute *)
@@ -137,8 +135,8 @@ From LY Require Import JsonText JsonDoc JsonDocP.
    UTF-8). It shares nothing with the libyang models. [json_tree sch t jk f] is the RFC 7951 reading of the forest.
 
    JSON: what the transcription of printer_json.c (WITH its state: level, level_printed, open arrays, first_leaflist)
-   writes for a forest with every node selected is valid RFC 8259 JSON and an independent reader recovers exactly the
-   RFC 7951 value of the forest: member structure and order, module qualifiers exactly where the module changes, int64 /
+   writes for a forest is, for every node selection, valid RFC 8259 JSON and an independent reader recovers exactly the
+   RFC 7951 value of the selected part of the forest: member structure and order, module qualifiers exactly where the module changes, int64 /
    uint64 / decimal64 / strings as strings, other integers and booleans as literals, empty as [null], metadata objects
    per RFC 7952, every string as the tree holds it. Data hypothesis: strings are valid UTF-8 without NUL ([utf8_nonul],
    the hypothesis of C12_json_string_std). *)
@@ -149,19 +147,25 @@ Theorem C12_json_doc_std :
 Proof. exact json_print_std_proof. Qed.
 Print Assumptions C12_json_doc_std.
 
+(* ... for any node selection (explicit, trim, ...): the selected part *)
+Theorem C12_json_doc_std_sel :
+  forall sch t jk (sel : dnode -> bool) f,
+    tabs_okb sch t = true -> parents_ltb sch = true -> Canon sch f -> Forall (JDocN sch t jk utf8_nonul) f ->
+    std_json_value (json_print sch t jk sel f) = Some (json_tree sch t jk (prune sel f)).
+Proof. exact json_print_std_sel_proof. Qed.
+Print Assumptions C12_json_doc_std_sel.
+
 Theorem C12_json_doc_std_checked :
-  forall sch t jk f,
+  forall sch t jk (sel : dnode -> bool) f,
     tabs_okb sch t = true -> parents_ltb sch = true -> canonb sch None f = true -> forallb (jdocb sch t jk nonulb) f = true ->
-    std_json_value (json_print_all sch t jk f) = Some (json_tree sch t jk f).
+    std_json_value (json_print sch t jk sel f) = Some (json_tree sch t jk (prune sel f)).
 Proof.
-  intros sch t jk f Ht Hp HC HD. apply json_print_std_proof; [exact Ht|exact Hp|apply canonb_spec, HC|].
+  intros sch t jk sel f Ht Hp HC HD. apply json_print_std_sel_proof; [exact Ht|exact Hp|apply canonb_spec, HC|].
   rewrite forallb_forall in HD. apply Forall_forall. intros x Hx. apply (jdocb_spec sch t jk nonulb utf8_nonul x nonulb_spec), HD, Hx.
 Qed.
 Print Assumptions C12_json_doc_std_checked.
 
-(* the RFC 7951 rendering of ANY forest in canonical position (e.g. the selected part of a forest) is valid JSON meaning
-   that forest; for selections other than "every node" the link to the printer is checked by the correspondence run
-   (explicit mode) resp. refuted (trim mode, below) *)
+(* the RFC 7951 rendering of ANY forest in canonical position is valid JSON meaning that forest *)
 Theorem C12_json_rendering_std :
   forall sch t jk f,
     tabs_okb sch t = true -> Canon sch f -> Forall (JDocN sch t jk utf8_nonul) f ->
@@ -169,26 +173,27 @@ Theorem C12_json_rendering_std :
 Proof. exact json_doc_std_proof. Qed.
 Print Assumptions C12_json_rendering_std.
 
-(* in trim mode the printer's state machine does NOT print the rendering of the selected part, and what it prints is
-   not JSON: FINDING json-trim-leaflist-meta. Witness: leaf-list ll (defaults -5, -7) with the instances -9 (carrying
-   metadata) and -7, then a container; the selection drops the second instance (an explicit node with a default value). *)
-Theorem C12_json_trim_refuted :
-  exists sch t jk (sel : dnode -> bool) f,
-    tabs_okb sch t = true /\ canonb sch None f = true /\ forallb (jdocb sch t jk nonulb) f = true /\
-    std_json_value (json_print sch t jk sel f) = None /\
-    json_print sch t jk sel f <> json_doc sch t jk (prune sel f).
-Proof.
-  exists [(0, mk_sinfo KLeafList None [] true true [[45; 53]; [45; 55]] [] false 0 None OInt);
-          (1, mk_sinfo (KCont false) None [] false true [] [] false 0 None OBytes);
-          (2, mk_sinfo KLeaf (Some 1) [] false true [] [] false 0 None OBytes)],
-         (mk_doctabs [(0, (0, [108; 108])); (1, (0, [99])); (2, (0, [120]))] [(0, mk_modinfo [109; 49] [109; 49] [117; 114; 110; 58; 109; 49])]),
-         [(0, JNum); (2, JStr)],
-         (fun n => negb (beq_bytes (d_val n) [45; 55])),
-         [DN 0 [45; 57] false [([109; 49; 58; 110; 111; 116; 101], [78])] []; DN 0 [45; 55] false [] [];
-          DN 1 [] false [] [DN 2 [97] false [] []]].
-  vm_compute. repeat split; discriminate.
-Qed.
-Print Assumptions C12_json_trim_refuted.
+(* trim mode: regression case on the witness of the former theorem C12_json_trim_refuted (former finding
+   json-trim-leaflist-meta, fixed by f592167): leaf-list ll (defaults -5, -7) with the instances -9 (carrying metadata)
+   and -7, then a container; the selection drops the second instance (an explicit node with a default value). The
+   printer writes  {"m1:ll":[-9],"@m1:ll":[{"m1:note":"N"}],"m1:c":{"x":"a"}}  (before the fix:
+   {"m1:ll":[-9,"m1:c":{"x":"a"}} ). *)
+Example C12_json_trim_regression :
+  let sch := [(0, mk_sinfo KLeafList None [] true true [[45; 53]; [45; 55]] [] false 0 None OInt);
+              (1, mk_sinfo (KCont false) None [] false true [] [] false 0 None OBytes);
+              (2, mk_sinfo KLeaf (Some 1) [] false true [] [] false 0 None OBytes)] in
+  let t := mk_doctabs [(0, (0, [108; 108])); (1, (0, [99])); (2, (0, [120]))] [(0, mk_modinfo [109; 49] [109; 49] [117; 114; 110; 58; 109; 49])] in
+  let jk := [(0, JNum); (2, JStr)] in
+  let sel := fun n => negb (beq_bytes (d_val n) [45; 55]) in
+  let f := [DN 0 [45; 57] false [([109; 49; 58; 110; 111; 116; 101], [78])] []; DN 0 [45; 55] false [] [];
+            DN 1 [] false [] [DN 2 [97] false [] []]] in
+  tabs_okb sch t = true /\ parents_ltb sch = true /\ canonb sch None f = true /\ forallb (jdocb sch t jk nonulb) f = true /\
+  std_json_value (json_print sch t jk sel f) = Some (json_tree sch t jk (prune sel f)) /\
+  json_print sch t jk sel f = json_doc sch t jk (prune sel f) /\
+  json_print sch t jk sel f =
+    [123; 34; 109; 49; 58; 108; 108; 34; 58; 91; 45; 57; 93; 44; 34; 64; 109; 49; 58; 108; 108; 34; 58; 91; 123; 34; 109; 49; 58; 110; 111;
+     116; 101; 34; 58; 34; 78; 34; 125; 93; 44; 34; 109; 49; 58; 99; 34; 58; 123; 34; 120; 34; 58; 34; 97; 34; 125; 125].
+Proof. vm_compute. repeat split. Qed.
 
 Definition exj_sch : schema :=
   [(0, mk_sinfo (KCont false) None [] false true [] [] false 0 None OBytes);
